@@ -1,3 +1,4 @@
+#![allow(unexpected_cfgs)]
 //! Correspondence harness: generates cases, runs the implementation (sdjwt from /repo's working
 //! tree) on them, and prints one line per case:  kind \t input \t observed  (wire format).
 //! The verdict is computed by the extracted Coq model (ocaml/driver.ml).
